@@ -39,7 +39,16 @@ class Calls:
                             nxt.append((s2, acc + vals))
                     outs = nxt
                     continue
-                raise Unsupported("*args at call site")
+                nxt = []
+                for s1, acc in outs:
+                    for s2, tup in self.ev(v, s1):
+                        tt = T.strip_opt(tup.ty)
+                        if tt.k != "tuple" or tup.ty.k == "opt":
+                            raise Unsupported("*args of a value without static tuple type")
+                        s2 = s2.copy()
+                        nxt.append((s2, acc + [self.list_read(s2, SV(tup.term, tt), z3.IntVal(i), tt.a[i]) for i in range(len(tt.a))]))
+                outs = nxt
+                continue
             outs = [(s2, acc + [v]) for s1, acc in outs for s2, v in self.ev(a, s1)]
         return outs
 
@@ -55,6 +64,10 @@ class Calls:
             f = n.func.id
             if f in ("f", "_") and f not in st.loc:
                 return [(st.copy(), SV(mk_str(fresh("msg", StrS)), T.STR))]
+            if f == "len" and len(n.args) == 1 and isinstance(n.args[0], ast.ListComp):
+                cnt = self.len_of_filtered(n.args[0], st)
+                if cnt is not None:
+                    return cnt
             if f == "len":
                 out = []
                 for s1, (c,) in self.ev_args(n.args, st):
@@ -244,6 +257,27 @@ class Calls:
             else:
                 raise Unsupported(f"{f}() of {c.ty}")
             out.append((s1, SV(mk_int(m), T.INT)))
+        return out
+
+    def len_of_filtered(self, lc: ast.ListComp, st: St):
+        """len([x for x in xs if [not] isinstance(x, C)]) as the recursive counting function (no list is built)."""
+        if len(lc.generators) != 1:
+            return None
+        g = lc.generators[0]
+        if not (isinstance(g.target, ast.Name) and isinstance(lc.elt, ast.Name) and lc.elt.id == g.target.id and len(g.ifs) == 1):
+            return None
+        t = g.ifs[0]
+        neg = False
+        if isinstance(t, ast.UnaryOp) and isinstance(t.op, ast.Not):
+            neg, t = True, t.operand
+        if not (isinstance(t, ast.Call) and isinstance(t.func, ast.Name) and t.func.id == "isinstance" and isinstance(t.args[0], ast.Name) and t.args[0].id == g.target.id and isinstance(t.args[1], ast.Name)):
+            return None
+        out = []
+        for s1, c in self.ev(g.iter, st):
+            if T.strip_opt(c.ty).k != "list":
+                return None
+            fn = self.count_fn(t.args[1].id, neg)
+            out.append((s1, SV(mk_int(fn(z3.Select(s1.h("lel"), as_r(c.term)), self.list_len(s1, c))), T.INT)))
         return out
 
     def ev_anyall(self, n: ast.Call, st: St, f: str):
